@@ -7,6 +7,7 @@ import (
 	"go/parser"
 	"go/token"
 	"go/types"
+	"golang.org/x/tools/go/cfg"
 	"strings"
 )
 
@@ -712,71 +713,131 @@ func g21ReserveEveryCalledName(r *Repo, rep *Report) {
 		rep.fail(Finding{Rule: "G21", Key: "G21|reserve|missing", Kind: "undecided", Msg: "(*finder).Visit not found"})
 		return
 	}
-	body := visit.Decl.Body.List
-	// position of the funcNames insertion (top-level statement)
-	insert := -1
-	for i, st := range body {
-		if as, ok := st.(*ast.AssignStmt); ok && len(as.Lhs) == 1 {
-			if ix, ok := as.Lhs[0].(*ast.IndexExpr); ok {
-				if sel, ok := ix.X.(*ast.SelectorExpr); ok && sel.Sel.Name == "funcNames" {
-					insert = i
-				}
+	info := visit.Pkg.TypesInfo
+	g := newGraph(visit.Decl.Body, mayReturnFn(info))
+	isInsert := func(n ast.Node) bool {
+		as, ok := n.(*ast.AssignStmt)
+		if !ok || len(as.Lhs) != 1 {
+			return false
+		}
+		if ix, ok := as.Lhs[0].(*ast.IndexExpr); ok {
+			if sel, ok := ix.X.(*ast.SelectorExpr); ok && sel.Sel.Name == "funcNames" {
+				return true
 			}
 		}
+		return false
 	}
-	if insert < 0 {
+	var inserts []*cfg.Block
+	for _, b := range g.Blocks {
+		if blockHas(b, isInsert) {
+			inserts = append(inserts, b)
+		}
+	}
+	if len(inserts) == 0 {
 		rep.fail(Finding{Rule: "G21", Key: "G21|reserve|no-insert", Where: []string{r.pos(visit.Decl.Pos())},
 			Msg: "(*finder).Visit no longer records the names of called functions as a top-level step (funcNames[name] = …): fresh helper names may take names the user calls"})
 		return
 	}
-	n := 0
-	for _, st := range body[:insert] {
-		ifs, ok := st.(*ast.IfStmt)
-		if !ok || !nodeHas(ifs.Body, func(k ast.Node) bool { _, ok := k.(*ast.ReturnStmt); return ok }) {
-			continue
+	canInsert := func(from *cfg.Block) bool {
+		if blockHas(from, isInsert) {
+			return true
 		}
-		n++
-		cond := exprStr(ifs.Cond)
-		init := ""
-		if ifs.Init != nil {
-			if as, ok := ifs.Init.(*ast.AssignStmt); ok && len(as.Rhs) == 1 {
-				init = exprStr(as.Rhs[0])
+		reach := g.reachable([]*cfg.Block{from}, nil)
+		for _, ib := range inserts {
+			if reach[ib] {
+				return true
 			}
 		}
-		allowed := false
-		switch {
-		case cond == "!ok": // failed assertion/lookup defined by the statement just before: node is no call, callee no identifier, callee undefined
-			allowed = true
-		case strings.HasSuffix(init, ".(*types.Builtin)") && cond == "ok":
-			allowed = true
-		case strings.HasSuffix(cond, "== nil"): // no file for the position
-			allowed = true
-		case strings.Contains(cond, "derivedFilename"):
-			allowed = true
-		}
-		if !allowed {
-			rep.fail(Finding{Rule: "G21", Key: "G21|reserve|early-exit", Where: []string{r.pos(ifs.Pos())},
-				Msg: fmt.Sprintf("(*finder).Visit leaves before reserving the callee's name when `%s %s`: identifiers the user calls that are not covered by this test's complement (function-typed variables, types used as conversions) are not reserved, so a fresh helper name can collide with them", init, cond)})
-		} else {
-			rep.pass("G21")
-		}
+		return false
 	}
-	// `!ok` exits must belong to the three known lookups (call, identifier, Uses): a fourth one is a new filter
-	nOK := 0
-	for i, st := range body[:insert] {
-		ifs, ok := st.(*ast.IfStmt)
-		if !ok || exprStr(ifs.Cond) != "!ok" || i == 0 {
+	// the statement that defined a variable (closest definition before pos)
+	defOf := func(v types.Object, pos token.Pos) ast.Expr {
+		var best ast.Expr
+		var bestPos token.Pos
+		ast.Inspect(visit.Decl.Body, func(n ast.Node) bool {
+			as, ok := n.(*ast.AssignStmt)
+			if !ok || len(as.Rhs) != 1 || as.Pos() >= pos {
+				return true
+			}
+			for _, l := range as.Lhs {
+				if id, ok := l.(*ast.Ident); ok && (info.Defs[id] == v || info.Uses[id] == v) && as.Pos() > bestPos {
+					best, bestPos = as.Rhs[0], as.Pos()
+				}
+			}
+			return true
+		})
+		return best
+	}
+	n := 0
+	for _, b := range g.Blocks {
+		if len(b.Succs) != 2 || len(b.Nodes) == 0 {
 			continue
 		}
-		nOK++
-		prev, _ := body[i-1].(*ast.AssignStmt)
-		src := ""
-		if prev != nil && len(prev.Rhs) == 1 {
-			src = exprStr(prev.Rhs[0])
+		cond, ok := b.Nodes[len(b.Nodes)-1].(ast.Expr)
+		if !ok || !canInsert(b) {
+			continue
 		}
-		if !(strings.HasSuffix(src, ".(*ast.CallExpr)") || strings.HasSuffix(src, ".(*ast.Ident)") || strings.Contains(src, ".Uses[")) {
-			rep.fail(Finding{Rule: "G21", Key: "G21|reserve|early-exit", Where: []string{r.pos(ifs.Pos())},
-				Msg: fmt.Sprintf("(*finder).Visit leaves before reserving the callee's name when `%s` fails: called identifiers of other kinds (function-typed variables, types used as conversions) are not reserved, so a fresh helper name can collide with a name the user calls", src)})
+		t, f := canInsert(b.Succs[0]), canInsert(b.Succs[1])
+		if t == f {
+			continue
+		}
+		// this test decides whether the callee's name is reserved: exitWhen is the outcome that leaves without reserving
+		n++
+		exitWhen := !t
+		ce := ast.Unparen(cond)
+		if u, ok := ce.(*ast.UnaryExpr); ok && u.Op == token.NOT {
+			ce = ast.Unparen(u.X)
+			exitWhen = !exitWhen
+		}
+		allowed := false
+		what := exprStr(cond)
+		switch x := ce.(type) {
+		case *ast.Ident:
+			// the ok of a type assertion or map lookup
+			if src := defOf(info.Uses[x], b.Nodes[len(b.Nodes)-1].Pos()); src != nil {
+				what = exprStr(src) + " " + map[bool]string{true: "succeeds", false: "fails"}[exitWhen]
+				switch y := ast.Unparen(src).(type) {
+				case *ast.TypeAssertExpr:
+					ts := exprStr(y.Type)
+					if (ts == "*ast.CallExpr" || ts == "*ast.Ident") && !exitWhen {
+						allowed = true // the node is no call / the callee is no bare identifier
+					}
+					if ts == "*types.Builtin" && exitWhen {
+						allowed = true
+					}
+				case *ast.IndexExpr:
+					if sel, ok := ast.Unparen(y.X).(*ast.SelectorExpr); ok && sel.Sel.Name == "Uses" && !exitWhen {
+						allowed = true // undefined callee: recorded as a call to generate
+					}
+				}
+			}
+		case *ast.BinaryExpr:
+			if x.Op == token.EQL || x.Op == token.NEQ {
+				if x.Op == token.NEQ {
+					exitWhen = !exitWhen
+				}
+				// exitWhen now refers to the equality holding
+				for _, side := range []ast.Expr{x.X, x.Y} {
+					if isNilIdent(info, side) && exitWhen {
+						other := x.X
+						if side == x.X {
+							other = x.Y
+						}
+						if t := info.TypeOf(other); t != nil && strings.HasSuffix(t.String(), "token.File") {
+							allowed = true // no file for the position (a conversion such as float64())
+						}
+					}
+					if id, ok := ast.Unparen(side).(*ast.Ident); ok && id.Name == "derivedFilename" {
+						allowed = exitWhen // defined in the previous output: queued for regeneration instead
+					}
+				}
+			}
+		}
+		if !allowed {
+			rep.fail(Finding{Rule: "G21", Key: "G21|reserve|early-exit", Where: []string{r.pos(cond.Pos())},
+				Msg: fmt.Sprintf("(*finder).Visit leaves before reserving the callee's name when `%s`: called identifiers of other kinds (function-typed variables, types used as conversions) are not reserved, so a fresh helper name can collide with a name the user calls", what)})
+		} else {
+			rep.pass("G21")
 		}
 	}
 	rep.analysed("visit_early_exits", n)
